@@ -194,10 +194,16 @@ def framing_units(reg, common):
         ex.raise_if(state, z3.Not(z3.Exists([o], pack(o) == b)) if False else z3.And(z3.Bool(fresh_name("codec_raises")),
                                                                                  pack(unpack(b)) != b), "Exception")
         return VInt(unpack(b))
-    for nm in ("_packb", "_cbor_dumps", "ubjson.dumpb", "umsgpack.packb", "msgpack.packb", "cbor2.dumps", "bjdata.dumpb"):
+    # the third-party codec entry points are the assumed primitives; the module-level helpers of serializer.py that wrap
+    # them (_packb / _unpackb: the branch taken on CPython -- `msgpack` with its native extension -- is the one verified;
+    # _cbor_dumps / _cbor_loads) are read from the current source like any other repository code
+    for nm in ("ubjson.dumpb", "umsgpack.packb", "msgpack.packb", "cbor2.dumps", "bjdata.dumpb"):
         reg.external(nm, ext_dumps)
-    for nm in ("_unpackb", "_cbor_loads", "ubjson.loadb", "umsgpack.unpackb", "msgpack.unpackb", "cbor2.loads", "bjdata.loadb"):
+    for nm in ("ubjson.loadb", "umsgpack.unpackb", "msgpack.unpackb", "cbor2.loads", "bjdata.loadb"):
         reg.external(nm, ext_loads)
+    reg.name_prefer = dict(getattr(reg, "name_prefer", {}))
+    for nm in ("_packb", "_unpackb", "_msgpack", "_HAS_MSGPACK"):
+        reg.name_prefer[("autobahn.wamp.serializer", nm)] = "if/"
     reg.shape("ObjSer", fields={"_batched": "bool"})
     LAYOUT = ["nobj() >= 0", "off(0) == 0", "off(nobj()) == len(payload)",
               "forall(k, 0, nobj(), off(k + 1) == off(k) + 4 + len(pack(obj(k))) and len(pack(obj(k))) < 2 ** 32 and "
@@ -359,7 +365,28 @@ for name in ("MsgPackObjectSerializer", "CBORObjectSerializer", "UBJSONObjectSer
     for o in OBJS:
         if ser.unserialize(ser.serialize(o)) != [o]:
             bad.append({"cls": name, "n": 1, "problem": "unbatched round trip differs"}); break
-print(json.dumps({"bad": bad}))
+    # a damaged frame (truncated, or with trailing octets) must not influence what later frames decode to -- on the same
+    # serializer, on another one, batched or not (a decoder carrying state across calls would)
+    for damage in ("truncated", "trailing"):
+        for batched in (False, True):
+            ser = cls(batched=batched)
+            good = ser.serialize(OBJS[0])
+            broken = good[:-2] if damage == "truncated" else good + b"\x01\x02"
+            if batched and damage == "trailing":
+                broken = good + b"\x00\x00\x00\x05ab"      # a length prefix announcing more octets than follow
+            try:
+                ser.unserialize(broken)
+            except Exception:
+                pass
+            for ser2 in (ser, cls(batched=batched), cls(batched=not batched)):
+                for o in OBJS[:4]:
+                    try:
+                        got = ser2.unserialize(ser2.serialize(o))
+                    except Exception as e:
+                        got = "raised %r" % (e,)
+                    if got != [o]:
+                        bad.append({"cls": name, "n": 1, "problem": "after a %s frame a valid frame decodes to %r instead of %r" % (damage, str(got)[:80], str([o])[:80])}); break
+print(json.dumps({"bad": bad[:8]}))
 '''
 
 
